@@ -124,7 +124,8 @@ func evaluatePair(
 }
 
 func calculateElectreResult(c1Val, c2Val Weight, c *Criterion, ths *ElectreCriterion) *ElectreResult {
-	if c1Val > c2Val {
+	// an alternative that is not worse on the criterion (also: equal) is fully concordant, whatever thresholds are declared
+	if c1Val >= c2Val {
 		return &ElectreResult{C: 1}
 	}
 	originalFirstCriterionValue := c1Val * Weight(c.Multiplier())
